@@ -4,6 +4,7 @@ import collections
 
 from vt.world import World
 from vt import monitors as M
+from vt.bus import order_fingerprint
 from vt.bus import ScriptNode
 from ref import codec as C
 from ref import sniffer as SN
@@ -445,6 +446,7 @@ def run_case(case):
     sample = dict(case=case, steps=dict(kinds), sends=[(round(s['t'], 3), '%02X' % s['sa'], '%02X' % s['da'], s['ret']) for s in sends[:14]],
                   pool_invariant_observed=inv_ok, frames=len(W.bus.frames))
     res = dict(violations=list(viol), inconclusive=None, sig=sig, nontrivial=obs['failed_transfers'] > 0 and not dead, obs=obs, sample=sample)
+    res['fingerprint'] = order_fingerprint(W.bus.frames)
     if case.get('trace'):
         res['trace'] = [f.brief() for f in W.bus.frames[:600]]
     W.close()
